@@ -125,7 +125,7 @@ def work(job):
                         st['checks'] += 1
                         exp_viol = (vb and not bounds_ok) or (cb and not cons_ok) or (ob and objmode == 'off' and m.objs)
                         exp_viol = bool(exp_viol)
-                        exact = (vb and cb and not ideal)      # modes for which the full iff is demanded
+                        exact = bool(vb and cb)                # modes for which the full iff is demanded (realistic and idealistic)
                         if kind != 'grid' and not vb: continue   # out-of-domain points: only modes checking variables
                         if not exact and not (bounds_ok and cons_ok) and not (ob and objmode == 'off') \
                                 and not (vb and not bounds_ok):
@@ -144,6 +144,14 @@ def work(job):
                             what = 'missed-violation' if exp_viol else 'spurious-violation'
                             cause = ('bounds' if (vb and not bounds_ok) else 'constraints' if (cb and not cons_ok) else 'objective') if exp_viol else kind
                             sig = 'C07 %s mode=%s cfg=%s %s%s' % (what, mname, cfgname, cause, ' (fail)' if fail else '')
+                            if what == 'missed-violation' and ideal and cause == 'constraints':
+                                # which delivered constraint defines the violated root(s): a result variable fixed by its bounds
+                                # whose defining expression has another true value at this point
+                                roots = sorted(set(c['type'].split('<')[0].split('[')[0] for c in D.cons
+                                                   if isinstance(c['data'], dict) and c['data'].get('res_var', -1) >= 0
+                                                   and D.vars[c['data']['res_var']][0] == D.vars[c['data']['res_var']][1]
+                                                   and abs(x[c['data']['res_var']] - D.vars[c['data']['res_var']][0]) > 1e-6))
+                                sig += ' [violated root defined by: %s]' % (','.join(roots) or 'algebraic row')
                             viols.append((sig, {'model': m.describe(), 'point': p, 'kind': kind, 'x': x, 'opts': opts, 'objs': objs,
                                                 'bounds_ok': bounds_ok, 'cons_ok': cons_ok, 'answer': v},
                                           {'nl': nl, 'opts': opts, 'acc': acc, 'x': x, 'objs': objs}))
@@ -212,15 +220,16 @@ def models(tier):
         if fam in ('alldiffcont', 'sos', 'compl', 'cones', 'pl'): continue
         if fam == 'bounds' and name.startswith('dom5') and 'alldiff' in name: continue   # dom5 makes the third alldiff argument continuous (= alldiffcont)     # alldiff over non-integer expressions is refused by the converter;
         out.append((fam, name, m))                               # SOS/complementarity: auxiliaries not functionally determined
+    sh = [(f, n, m) for (f, n, m) in flatgen.all_models('quick', ['shapes'])]
     if tier == 'quick':
-        sh = [(f, n, m) for (f, n, m) in flatgen.all_models('quick', ['shapes'])]
         out += [t for t in sh if '<-' in t[1] and not t[1].startswith('log ')][::12]
         out = out[::2]
-        out += [t for t in sh if '<-' not in t[1]]          # every depth-1 operator shape at every root
-        out += [t for t in sh if '<-' in t[1] and t[1].startswith('log ')]   # every (parent, slot, child) under a logical root:
-        # a nested expression may be false at a feasible point, so a wrong recomputation shows as a spurious report
     else:
-        out = out[::4]
+        out = [t for t in out if t[0] != 'shapes']                   # thorough: every model of every other family,
+        out += [t for t in sh if '<-' in t[1] and not t[1].startswith('log ')][::3]   # every 3rd numeric depth-2 shape
+    out += [t for t in sh if '<-' not in t[1]]          # every depth-1 operator shape at every root
+    out += [t for t in sh if '<-' in t[1] and t[1].startswith('log ')]   # every (parent, slot, child) under a logical root:
+    # a nested expression may be false at a feasible point, so a wrong recomputation shows as a spurious report
     return out
 
 
